@@ -157,7 +157,8 @@ impl RetryStrategy for Logging {
 }
 
 const MIN: Duration = Duration::from_millis(20);
-const MAX: Duration = Duration::from_millis(160);
+// deliberately not a power-of-two multiple of MIN: the cap must bite between two doublings
+const MAX: Duration = Duration::from_millis(150);
 
 /// part (b): the TCP client task with a logging wrapper around the real strategy
 async fn task_level(seed: u64, n: u64) -> (Evidence, Vec<(String, String)>) {
@@ -195,8 +196,30 @@ async fn task_level(seed: u64, n: u64) -> (Evidence, Vec<(String, String)>) {
             env.set(outcomes[attempt]).await;
             attempt += 1;
         }
+        let is_wait = matches!(state, ClientState::WaitAfterFailedConnect(_) | ClientState::WaitAfterDisconnect(_));
         notes.push((state, at));
         let _ = ack.send(());
+        // user activity during a wait must not shorten it: requests (failed with no-connection)
+        // and setting changes are processed by the task while it waits
+        if is_wait && rng.chance(2, 3) {
+            let ch = channel.clone();
+            let what = rng.below(3);
+            tokio::spawn(async move {
+                tokio::time::sleep(Duration::from_millis(2)).await;
+                match what {
+                    0 => {
+                        let _ = ch.read_coils(RequestParam::new(UnitId::new(1), Duration::from_millis(50)), AddressRange::try_from(0, 1).unwrap()).await;
+                    }
+                    1 => {
+                        let _ = ch.set_decode_level(DecodeLevel::nothing()).await;
+                    }
+                    _ => {
+                        let _ = ch.enable().await;
+                    }
+                }
+            });
+            ev.count("commands_issued_during_waits", 1);
+        }
     }
     let _ = channel.shutdown().await;
     // keep acknowledging until the task is gone
@@ -332,7 +355,34 @@ pub fn run(args: &Args) -> i32 {
         }
         n = hi;
     }
-    ev.sample(json!({"strategy_lattice": lattice().iter().map(|d| format!("{d:?}")).collect::<Vec<_>>(), "task_level": {"min_ms": 20, "max_ms": 160, "outcomes": "refused / accepted then closed / accepted then garbage"}}));
+    // serial client and RTU server tasks use the same strategy object
+    {
+        let reps = args.tier.pick(2usize, 30);
+        for k in 0..reps {
+            for scenario in [0usize, 1] {
+                let mut e = Evidence::new();
+                let problems = rt.block_on(crate::serial::serial_client(scenario, k, &mut e));
+                ev.merge(e);
+                ev.eval();
+                ev.count("serial_task_scripts", 1);
+                for (sig, what) in problems {
+                    if sig.contains("strategy") || sig.contains("delay") || sig.contains("reset") || sig.contains("after_disconnect") || sig.contains("earlier_than") || sig.contains("no_wait_after") {
+                        ev.violation(sig, what, json!({"leg": "serial_client", "scenario": scenario}));
+                    }
+                }
+            }
+            let mut e = Evidence::new();
+            let problems = rt.block_on(crate::serial::rtu_server_pty(args.tier.pick(9, 60), seed ^ k as u64, &mut e));
+            ev.merge(e);
+            ev.count("rtu_server_task_scripts", 1);
+            for (sig, what) in problems {
+                if sig.starts_with("rtu_server:") {
+                    ev.violation(sig, what, json!({"leg": "rtu_server"}));
+                }
+            }
+        }
+    }
+    ev.sample(json!({"strategy_lattice": lattice().iter().map(|d| format!("{d:?}")).collect::<Vec<_>>(), "task_level": {"min_ms": 20, "max_ms": 150, "outcomes": "refused / accepted then closed / accepted then garbage"}}));
     let meta = Meta {
         property_id: "C14",
         level: "exploration",
